@@ -40,6 +40,8 @@ def run(ctx):
     c20.r202(ctx)
     c20.r206(ctx)
     c20.r201b(ctx)
+    from . import c13 as _c13
+    _c13.r134(ctx, api)
     from . import c01
     c01.r119_views(ctx, 'R6.9')
     from . import c07
